@@ -132,7 +132,7 @@ check(
     "runtime monitoring: reference type validator beside Argument.validate on generated (type, value) pairs; removal monitor on submit in dry-run and in normal mode on the controlled scheduler",
     "Classes with one parameter of a generated type are created inside xvmodels; conforming values must be accepted and read back equal after the documented coercions, anything "
     "else must raise or (bool only) store a bool; a task graph with one required value removed at any nesting kind must be rejected by submit with the scheduler registry, unfinished "
-    "counter and job links unchanged.",
+    "counter and job links unchanged, and so must a second attempt: a new task object built over the same unrepaired parameter objects.",
     "Trusted: the reference validator (documented coercions only; bool exemption stated in the evidence).",
     "DESIGN.md §3 C15",
 )
